@@ -87,6 +87,7 @@ type exec struct {
 	conn      fakeConn
 	inside    uint32
 	sawInside bool
+	sawSecond bool // parameterised-prefix family: a handler read a non-empty *2 or +2
 
 	// map-iteration chooser (verifrt.MapOrder): plan[k] = pick at the k-th choice point
 	plan    map[int]int
@@ -127,6 +128,16 @@ var replyBody = func() (out [maxLeaves]string) {
 // every handler appends "<id>:<Params(id)>,<Params(t)>,<Params(*)>;" to the trace
 func (e *exec) mkHandler(id int, next bool) fiber.Handler {
 	return func(c fiber.Ctx) error {
+		if richMode {
+			e.richTrace(id, c)
+			if e.inside&(1<<id) != 0 {
+				e.sawInside = true
+			}
+			if next {
+				return c.Next()
+			}
+			return c.SendString(replyBody[id])
+		}
 		e.tr = append(e.tr, byte('0'+id), ':')
 		e.tr = append(e.tr, c.Params("id")...)
 		e.tr = append(e.tr, ',')
@@ -145,6 +156,50 @@ func (e *exec) mkHandler(id int, next bool) fiber.Handler {
 		return c.SendString(replyBody[id])
 	}
 }
+
+// richTrace (parameterised-prefix family) appends every way of reading parameters:
+// "<id>:names=<Route().Params joined by '.'>,n.<name>=<Params(name)> for every declared name,
+// *1= *2= *3= +1= +2= +3= (positional names), *= += (shorthands), d=<Params of an undeclared name
+// with default>, dt=<Params("t", default)>, gi=<fiber.Params[int](c, "id", -1)>;"
+func (e *exec) richTrace(id int, c fiber.Ctx) {
+	t := append(e.tr, byte('0'+id), ':')
+	names := c.Route().Params
+	t = append(t, "names="...)
+	for i, n := range names {
+		if i > 0 {
+			t = append(t, '.')
+		}
+		t = append(t, n...)
+	}
+	for _, n := range names {
+		t = append(t, ",n."...)
+		t = append(t, n...)
+		t = append(t, '=')
+		t = append(t, c.Params(n)...)
+	}
+	for _, k := range richKeys {
+		t = append(t, ',')
+		t = append(t, k...)
+		t = append(t, '=')
+		v := c.Params(k)
+		t = append(t, v...)
+		if v != "" && (k == "*2" || k == "+2") {
+			e.sawSecond = true
+		}
+	}
+	t = append(t, ",d="...)
+	t = append(t, c.Params("nosuch", "dflt")...)
+	t = append(t, ",dt="...)
+	t = append(t, c.Params("t", "dflt")...)
+	t = append(t, ",gi="...)
+	t = strconv.AppendInt(t, int64(fiber.Params[int](c, "id", -1)), 10)
+	t = append(t, ';')
+	e.tr = t
+	e.rp = append(e.rp, c.Route().Path...)
+	e.rp = append(e.rp, ';')
+}
+
+var richKeys = []string{"*1", "*2", "*3", "+1", "+2", "+3", "*", "+"}
 
 func addRoute(r fiber.Router, n *node, pat string, h fiber.Handler) {
 	switch n.Kind {
